@@ -18,7 +18,7 @@ Record taskdef := {
 
 Record taskres := { tr_name : name; tr_skipped : bool; tr_cmds : list cmdres }.
 
-Record flags := { f_quiet : bool; f_json : bool; f_force : bool; f_show : bool }.
+Record flags := { f_quiet : bool; f_json : bool; f_force : bool; f_show : bool; f_vars : bool; f_clean : bool }.
 
 Definition cmd_ok (c : cmdres) : bool := Nat.eqb (c_status c) 0.
 Definition cmds_ok (l : list cmdres) : bool := forallb cmd_ok l.
@@ -50,7 +50,9 @@ Inductive stdout_doc :=
 | SDNothing                                   (* standard output is empty *)
 | SDJson (rs : list taskres)                  (* exactly one JSON document: the results *)
 | SDText (ms : list msg)                      (* echoed commands, their output, and these messages in this order *)
-| SDListing (names : list name).              (* the task table of --show / of a default-less invocation *)
+| SDListing (names : list name)               (* the task table of --show / of a default-less invocation *)
+| SDVars (vs : list (name * bytes))           (* the variable table of --vars: every variable with its evaluated value *)
+| SDCleaned.                                  (* the messages of the built-in --clean (their text is not modelled) *)
 
 Inductive err_kind := ECommandFailed (t : name) (cmd : bytes) (status : nat) | ESelection (e : gerr) | ERun (e : errk).
 
@@ -97,34 +99,47 @@ Fixpoint insert_n (x : name) (l : list name) : list name :=
 Definition sort_names (l : list name) : list name := fold_right insert_n [] l.
 
 Definition default_name : name := 3.           (* the task called "default" (the harness maps names to numbers) *)
+Definition clean_name : name := 2.             (* the task called "clean" *)
+Definition has_task (defs : list taskdef) (n : name) : bool := existsb (fun d => Nat.eqb (td_name d) n) defs.
+
+(* variables sorted by name, as showVariables prints them *)
+Fixpoint insert_v (x : name * bytes) (l : list (name * bytes)) : list (name * bytes) :=
+  match l with [] => [x] | y :: t => if Nat.leb (fst x) (fst y) then x :: l else y :: insert_v x t end.
+Definition sort_vars (l : list (name * bytes)) : list (name * bytes) := fold_right insert_v [] l.
 
 Section Invoke.
 Variable pick : nat -> list name -> list name.  (* Go's map iteration order in dag.Sort *)
 
-(* one invocation: `spok [flags] req...` ; with no request: the default action *)
-Definition invoke (defs : list taskdef) (s : st DI) (f : flags) (req : list name) : st DI * observation :=
-  let listing := {| ob_exit := 0; ob_error := None;
-                    ob_stdout := if f_quiet f || f_json f then SDNothing else SDListing (sort_names (map td_name defs));
-                    ob_executed := [] |} in
-  if f_show f then (s, listing)
+(* App.runTasks(spokfile, runner, req...) *)
+Definition run_req (defs : list taskdef) (s : st DI) (f : flags) (req : list name) : st DI * observation :=
+  match run_order pick (map (fun d => (td_name d, td_deps d)) defs) req with
+  | GErr e => (s, {| ob_exit := 1; ob_error := Some (ESelection e); ob_stdout := SDNothing; ob_executed := [] |})
+  | GOk order =>
+    let otasks := flat_map (fun n => match find_def defs n with Some d => [to_task d] | None => [] end) order in
+    let r := run_i (f_force f) (beh_of defs) s otasks in
+    let s' := apply_op_i s (RunOp (f_force f) (beh_of defs) otasks) in
+    match rr_out DI r with
+    | RunErr e => (s', {| ob_exit := 1; ob_error := Some (ERun e); ob_stdout := SDNothing; ob_executed := rr_exec DI r |})
+    | RunOk rs => (s', run_tasks_obs f (map (mk_res defs) rs) (rr_exec DI r))
+    end
+  end.
+
+(* one invocation `spok [flags] req...`: the dispatch of App.Run after the spokfile has been loaded, in its order
+   (--vars, --clean, --show, then the requested tasks or the default action).  --init and --fmt are in Effects.v. *)
+Definition invoke (defs : list taskdef) (vars : list (name * bytes)) (s : st DI) (f : flags) (req : list name) : st DI * observation :=
+  let hidden := f_quiet f || f_json f in     (* the stream the listings and messages go to is discarded *)
+  let quiet_ok d := {| ob_exit := 0; ob_error := None; ob_stdout := if hidden then SDNothing else d; ob_executed := [] |} in
+  if f_vars f then (s, quiet_ok (SDVars (sort_vars vars)))
+  else if f_clean f then
+    (* a task named clean replaces the built-in clean (task names given on the command line play no part);
+       the built-in one removes the cache directory (and the declared outputs: Effects.v) *)
+    if has_task defs clean_name then run_req defs s f [clean_name]
+    else (apply_op_i s RemoveCache, quiet_ok SDCleaned)
+  else if f_show f then (s, quiet_ok (SDListing (sort_names (map td_name defs))))
   else
-    let req' := match req with
-                | [] => if existsb (fun d => Nat.eqb (td_name d) default_name) defs then [default_name] else []
-                | _ => req
-                end in
-    match req' with
-    | [] => (s, listing)
-    | _ =>
-      match run_order pick (map (fun d => (td_name d, td_deps d)) defs) req' with
-      | GErr e => (s, {| ob_exit := 1; ob_error := Some (ESelection e); ob_stdout := SDNothing; ob_executed := [] |})
-      | GOk order =>
-        let otasks := flat_map (fun n => match find_def defs n with Some d => [to_task d] | None => [] end) order in
-        let r := run_i (f_force f) (beh_of defs) s otasks in
-        let s' := apply_op_i s (RunOp (f_force f) (beh_of defs) otasks) in
-        match rr_out DI r with
-        | RunErr e => (s', {| ob_exit := 1; ob_error := Some (ERun e); ob_stdout := SDNothing; ob_executed := rr_exec DI r |})
-        | RunOk rs => (s', run_tasks_obs f (map (mk_res defs) rs) (rr_exec DI r))
-        end
-      end
+    match req with
+    | [] => if has_task defs default_name then run_req defs s f [default_name]
+            else (s, quiet_ok (SDListing (sort_names (map td_name defs))))
+    | _ => run_req defs s f req
     end.
 End Invoke.
